@@ -51,6 +51,10 @@ def _as_byte(b):
                     % type(b).__name__)
 
 
+def _bytes_eq(a, b):
+    return bool(E.and_(*[E.eq(x, y) for x, y in zip(a, b)])) if a else True
+
+
 class SymBytes:
     """Immutable sequence of byte values, some of them symbolic."""
     mutable = False
@@ -130,6 +134,34 @@ class SymBytes:
             if b == x:
                 return i
         raise ValueError("subsection not found")
+
+    def find(self, sub, start=0, end=None):
+        if _isinstance(sub, (_bytes, _bytearray)):
+            if len(sub) != 1:
+                raise EngineUnsupported("SymBytes.find with a multi-byte pattern")
+            sub = sub[0]
+        items = self.items[start:end]
+        for i, b in enumerate(items):
+            if b == sub:
+                return i + start
+        return -1
+
+    def startswith(self, prefix):
+        p = list(prefix)
+        if len(p) > len(self.items):
+            return False
+        return _bytes_eq(self.items[:len(p)], p)
+
+    def endswith(self, suffix):
+        p = list(suffix)
+        if len(p) > len(self.items):
+            return False
+        return _bytes_eq(self.items[len(self.items) - len(p):], p)
+
+    def count(self, x):
+        if _isinstance(x, (_bytes, _bytearray)):
+            x = x[0]
+        return sum(1 for b in self.items if b == x)
 
     def split(self, sep=None, maxsplit=-1):
         if not _isinstance(sep, _bytes) or len(sep) != 1:
